@@ -150,6 +150,15 @@ def r1_positions(repo):
         ok = isinstance(last, ast.Return) and src(last.value) == nm
     obs.append(Ob("C07-R1", "position:type-variable-lookup", _w(g), ok,
                   "a type variable bound by the map must be replaced by type_map.get(etype) (returned at the end)"))
+    # ... and the key of that lookup is the type as it was given: a variable rebuilt with a substituted bound is a
+    # different key (TypeParameter equality includes the bound) and misses its own entry
+    okk, kd = False, "no lookup"
+    if len(look) == 1:
+        defs = cfg_of(g.node).defs_reaching(e, look[0])
+        okk = all(k == "param" for _d, _v, k in defs) and bool(defs)
+        kd = "definitions of `%s` reaching the lookup: %s" % (e, [k if k == "param" else src(v)[:60] for _d, v, k in defs])
+    obs.append(Ob("C07-R1", "position:type-variable-lookup-key-is-the-input", _w(g), okk,
+                  "type_map must be consulted with the type variable as given, before anything is rebuilt; " + kd))
     # (6) TypeConstructor.supertypes[*]
     f = repo.fn(T + ".perform_type_substitution")
     e2 = f.params[0]
@@ -166,6 +175,9 @@ def r1_positions(repo):
                src(a.args[0].args[0]) == src(loops[0].target) and src(a.args[0].args[1]) == f.params[1]] if loops else []
         sub_ok = len(sub) == 1 and ("%s.is_parameterized()" % src(loops[0].target), True) in \
             [(src(t), p) for t, p in flat_guards(sub[0])]
+        # the supertypes are rewritten under the default condition (the one TypeConstructor.new uses): forwarding the
+        # caller's condition makes substitute_type build supertypes that instantiation never builds
+        sub_ok = sub_ok and len(sub[0].args[0].args) == 2 and not sub[0].args[0].keywords
         other = [a for a in apps if a not in sub]
         pass_ok = all(src(a.args[0]) == src(loops[0].target) and
                       ("%s.is_parameterized()" % src(loops[0].target), False) in
@@ -180,7 +192,7 @@ def r1_positions(repo):
         ret = f.node.body[-1]
         ok = lp_ok and sub_ok and pass_ok and one and root_ok and isinstance(ret, ast.Return) and src(ret.value) == e2
         msg = ("every supertype of the constructor (unsliced) is visited, parameterized ones are rebuilt with "
-               "substitute_type_args(t, type_map), the list is installed on the deep copy that is returned: "
+               "substitute_type_args(t, type_map) - two arguments, default condition -, the list is installed on the deep copy that is returned: "
                "loop=%s substituted=%s others-passed=%s one-per-iteration=%s installed-on-copy=%s"
                % (lp_ok, sub_ok, pass_ok, one, root_ok))
     obs.append(Ob("C07-R1", "position:TypeConstructor.supertypes[*]", _w(f), ok, msg))
